@@ -62,7 +62,7 @@ def scaled_calls(cls, p, g, d, operands, rng, ints, npairs=300):
     V = setup(cls, p, g, d)
     S = 10 ** (p + g)
     geps = max(10 ** g // 2, 1) if cls == 'guarded' else 1
-    base = dict(cls=cls, p=p, g=g, d=-1 if d is None else d, dEff=d_eff(cls, p, g, d), S=S, geps=geps, rnd='op', a=0, b=0, c=0, r=0,
+    base = dict(cls=cls, p=p, g=g, d=-1 if d is None else d, dEff=d_eff(cls, p, g, d), S=S, geps=geps, rnd='op', a=0, b=0, c=0, r=0, oor=False,
                 same_cls=True, flags=[False] * 6, unchanged=True, str=dict(neg=False, ip=0, fr=0, fd=0, gfr=0, gfd=0))
     mk = lambda x: V(x, True)
     out = []
@@ -86,9 +86,13 @@ def scaled_calls(cls, p, g, d, operands, rng, ints, npairs=300):
         else:
             r['same_cls'] = type(res) is V
             r['r'] = getattr(res, '_value', 0) if r['same_cls'] else 0
-            if not isinstance(r['r'], int) or abs(r['r']) >= LIM:
+            # a result so large that the relational law cannot even be evaluated in 32 bits is wrong by itself
+            # (for a correct result |r|*divisor is about |a*b| or |a*S|, which fits by construction of the operands)
+            div = {'mul': S, 'div': abs(b) if isinstance(b, int) else 1, 'muldiv': abs(c) if isinstance(c, int) else 1, 'floordivint': abs(b) if isinstance(b, int) else 1}.get(op, 1)
+            big = not isinstance(r['r'], int) or (abs(r['r']) + 1) * max(div, 1) >= LIM
+            if big:
                 r['r'] = 0
-                r['same_cls'] = False
+                r['oor'] = True
         out.append(r)
     for a in operands:
         A = mk(a)
@@ -141,7 +145,7 @@ def scaled_calls(cls, p, g, d, operands, rng, ints, npairs=300):
 
 def rational_calls(d, operands, rng, tier='quick'):
     V = setup('rational', d=d)
-    base = dict(cls='rational', p=0, g=0, d=d, dEff=d, S=1, geps=1, rnd='op', a=[0, 1], b=[0, 1], c=[0, 1], r=[0, 1],
+    base = dict(cls='rational', p=0, g=0, d=d, dEff=d, S=1, geps=1, rnd='op', a=[0, 1], b=[0, 1], c=[0, 1], r=[0, 1], oor=False,
                 same_cls=True, flags=[False] * 6, unchanged=True, str=dict(neg=False, ip=0, fr=0, fd=0, gfr=0, gfd=0))
     pr = lambda x: [x.numerator, x.denominator]
     out = []
@@ -219,7 +223,7 @@ def big_calls(rng, tier):
         S = 10 ** (p + g)
         geps = max(10 ** g // 2, 1) if cls == 'guarded' else 1
         de = d_eff(cls, p, g, d)
-        base = dict(big=True, cls=cls, p=p, g=g, d=-1 if d is None else d, dEff=de, Sb=limbs(S), gepsb=limbs(geps), rnd='op', a=limbs(0), b=limbs(0), c=limbs(0),
+        base = dict(big=True, oor=False, cls=cls, p=p, g=g, d=-1 if d is None else d, dEff=de, Sb=limbs(S), gepsb=limbs(geps), rnd='op', a=limbs(0), b=limbs(0), c=limbs(0),
                     r=limbs(0), same_cls=True, flags=[False] * 6, unchanged=True, pu=limbs(0), Db=limbs(1), digits_ok=True)
         mk = lambda x: V(x, True)
 
@@ -303,7 +307,7 @@ def big_calls(rng, tier):
             except Exception:
                 s0 = 'EXC'
             ps = parse_str(s0)
-            r = dict(big=True, cls='rational', p=0, g=0, d=d, dEff=d, Sb=limbs(1), gepsb=limbs(1), rnd='op', op='strq', a=limbs(x.numerator), ad=limbs(x.denominator),
+            r = dict(big=True, oor=False, cls='rational', p=0, g=0, d=d, dEff=d, Sb=limbs(1), gepsb=limbs(1), rnd='op', op='strq', a=limbs(x.numerator), ad=limbs(x.denominator),
                      b=limbs(0), c=limbs(0), r=limbs(0), same_cls=True, flags=[False] * 6, unchanged=(x == Fraction(num, den)), pu=limbs(0), Db=limbs(1), digits_ok=False)
             if ps is not None:
                 if d == 0:
